@@ -23,7 +23,13 @@ impl Emitter {
     pub fn line(&self) -> usize { self.lines.len() + 1 }
     pub fn text(&self) -> String { let mut s = self.lines.join("\n"); s.push('\n'); s }
     fn flush(&mut self) {
-        let l = std::mem::take(&mut self.cur);
+        let mut l = std::mem::take(&mut self.cur);
+        // `for x in __hx_iter(e)` -> `for x in hx_it: e`
+        if let Some(i) = l.find(" in __hx_iter(") {
+            let head = l[..i].to_string(); let rest = l[i + " in __hx_iter(".len()..].to_string();
+            let (expr, tail) = if let Some(stripped) = rest.trim_end().strip_suffix(") {") { (stripped.to_string(), " {".to_string()) } else if let Some(stripped) = rest.trim_end().strip_suffix(')') { (stripped.to_string(), String::new()) } else { (rest.clone(), String::new()) };
+            l = format!("{} in hx_it: {}{}", head, expr, tail);
+        }
         let n = self.lines.len() + 1;
         if let Some(s) = self.cur_src.take() { self.linemap.push((n, self.file.clone(), s)); }
         self.lines.push(l.trim_end().to_string());
